@@ -77,6 +77,7 @@ STAGES = {
             S("raw", "^TestC03Raw$", quick=8000, thorough=60000, shards=(4, 16)),
             S("fuzz", "^$", tiers=("thorough",), shards=(1, 1), fuzz={"target": "^FuzzC03$", "time": {"quick": "10s", "thorough": "180s"}}, timeout=("10m", "30m"))],
     "C04": [S("cuts", "^TestC04$", quick=40, thorough=60, shards=(6, 16), timeout=("15m", "120m"), shrinktime="60s"),
+            S("transient", "^TestC04Transient$", quick=12, thorough=60, shards=(4, 16), timeout=("15m", "120m"), shrinktime="60s"),
             S("big", "^TestC04Big$", quick=25, thorough=400, shards=(6, 16), timeout=("15m", "120m"), shrinktime="60s")],
     "C05": [S("regress", "^TestC05Regress$"),
             S("concurrent", "^TestC05$", quick=150, thorough=2500, shards=(6, 16), timeout=("15m", "90m")),
